@@ -171,6 +171,15 @@ def _summarise(interp, st, frame, seq):
         Bz = zint(B)
 
         def elem(t, exprs=exprs, c=c):
+            if not hasattr(ctx, "guard_stack"):
+                ctx.guard_stack = []
+            ctx.guard_stack.append([])
+            try:
+                return elem_inner(t, exprs, c)
+            finally:
+                ctx.last_guards = ctx.guard_stack.pop()
+
+        def elem_inner(t, exprs, c):
             tz = zint(t)
             q = z3.simplify(tz / Bz)
             r = z3.simplify(tz % Bz)
@@ -187,13 +196,13 @@ def _summarise(interp, st, frame, seq):
             return ops.select_items(ctx, vals, which)
         total_new = z3.simplify(zint(n_items) * Bz)
         block = Vec(total_new, elem, kind="list", elem=L.elem)
-        # element type from a probe
-        pk = ctx.int("probe")
-        ctx.binder_stack.append([])
-        try:
-            sample = elem(pk)
-        finally:
-            ctx.binder_stack.pop()
+        # element type from a probe at a fresh position; the index bounds met while evaluating the element expressions are
+        # proved here once for every position (instead of branching inside the closure)
+        pk = ctx.int("pos")
+        sample = elem(pk)
+        guards = list(getattr(ctx, "last_guards", []))
+        if guards:
+            ctx.oblige(f"safe:index-in-summarised-loop[{name}]", "safe", z3.Implies(z3.And(pk >= 0, pk < zint(total_new)), z3.And(*guards)))
         et = "int" if isinstance(sample, Num) and sample.is_int else "real" if isinstance(sample, Num) else \
             "bool" if isinstance(sample, Bool) else L.elem
         block.buf.elem = et
